@@ -7,6 +7,9 @@
    <op> [obj=k] [other=j] args…               one operation on object k (default 0)
    <op>_alias … i=<index>                     the argument is element i of object k itself (`v.insert(pos, v[i])`);
                                               push_top / emplace_top: `push_back(back())` / `stack::push(top())`
+   <op>_mv … x=<v>                            `T t(v); c.<op>(std::move(t));` — the result is followed by ` arg=<what t
+                                              shows afterwards>` (push_mv, emplace_back_mv, insert_mv, emplace_mv,
+                                              try_push_mv, try_emplace_mv, unchecked_push_mv, unchecked_emplace_mv)
 
    Output of an operation: `<result>;<obj0>;<obj1>;<obj2>;<obj3>` with
    `<obj> = n=<size> e=<empty> f=<full> d=[elements] fb=<front>/<back>`.  The spec column is `*`
@@ -19,7 +22,12 @@ import Tetl.C01.Observe
 namespace Tetl.C01.Driver
 open Tetl Tetl.Proto
 
-def fmtOut : Out → String
+/-- what the caller's object `t` (constructed with the value `x`, element kind `k`) shows after `f(etl::move(t))`:
+    its moved-from state (`mvd`) if an element has been constructed from it, `x` otherwise -/
+def fmtArg (k : Kind) (x : Nat) (moved : Bool) : String := s!" arg={if moved then mvd k x else x}"
+
+/-- `k`, `x`: element kind and the value of the line's `x=` (only the `…Arg` results use them) -/
+def fmtOut (k : Kind) (x : Nat) : Out → String
   | .unit => "ok"
   | .it n => s!"it={n}"
   | .count n => s!"cnt={n}"
@@ -27,6 +35,11 @@ def fmtOut : Out → String
   | .ptr (some x) => s!"ptr={x}"
   | .ref x => s!"ref={x}"
   | .rels bs => "rel=" ++ String.join (bs.map fmtBool)
+  | .unitArg m => "ok" ++ fmtArg k x m
+  | .itArg n m => s!"it={n}" ++ fmtArg k x m
+  | .ptrArg none m => "null" ++ fmtArg k x m
+  | .ptrArg (some y) m => s!"ptr={y}" ++ fmtArg k x m
+  | .refArg y m => s!"ref={y}" ++ fmtArg k x m
 
 /-- one object of the spec: the list itself -/
 def fmtSpecObj (cap : Nat) (l : List Nat) : String :=
@@ -135,6 +148,11 @@ def parseOpNamed (name : String) (l : Line) : Option Op :=
   | "unchecked_push_rv" => x.map (Op.unchecked 1)
   | "unchecked_emplace" => x.map (Op.unchecked 2)
   | "dump" => some .dump
+  -- api_member only: the overload exists as a function of its own (signature probe)
+  | "try_push_cref_sig" => x.map (Op.tryPush 0)
+  | "try_push_rv_sig" => x.map (Op.tryPush 1)
+  | "unchecked_push_cref_sig" => x.map (Op.unchecked 0)
+  | "unchecked_push_rv_sig" => x.map (Op.unchecked 1)
   -- the argument is element `i` of the object itself
   | "push_alias" => i.map (Op.pushA 0)
   | "emplace_back_alias" => i.map (Op.pushA 2)
@@ -148,6 +166,15 @@ def parseOpNamed (name : String) (l : Line) : Option Op :=
   | "try_emplace_alias" => i.map (Op.tryPushA 2)
   | "unchecked_push_alias" => i.map (Op.uncheckedA 0)
   | "unchecked_emplace_alias" => i.map (Op.uncheckedA 2)
+  -- the argument is `std::move(t)` of an object `t` (value x) that is printed after the call (`arg=`)
+  | "push_mv" => x.map (Op.pushMv 1)
+  | "emplace_back_mv" => x.map (Op.pushMv 3)
+  | "insert_mv" => do some (.insertMv 1 (← pos) (← x))
+  | "emplace_mv" => do some (.insertMv 3 (← pos) (← x))
+  | "try_push_mv" => x.map (Op.tryPushMv 1)
+  | "try_emplace_mv" => x.map (Op.tryPushMv 3)
+  | "unchecked_push_mv" => x.map (Op.uncheckedMv 1)
+  | "unchecked_emplace_mv" => x.map (Op.uncheckedMv 3)
   | _ => none
 
 def parseOp (l : Line) : Option Op := parseOpNamed l.op l
@@ -215,6 +242,7 @@ def step (st : St) (l : Line) : St × String :=
       if !Spec.valid s.ty sp k op then (st, "invalid\tinvalid") else
       if !valid s k op then (st, "err:spec-valid but not model-valid\t*") else
       let r := Spec.step sp k op
+      let fmtOut := fmtOut s.kind ((l.nat? "x").getD 0)
       let specStr := match r.2, fmtSpecSys sp.cap r.1.objs with
         | some o, some str => fmtOut o ++ ";" ++ str
         | _, _ => "*"
